@@ -275,6 +275,26 @@ def minor_upgrade_triples():
         out.append({'b': base5, 'l': new, 'r': old, 'src': 'crafted:minor_downgrade'})
     return out
 
+def concurrent_output_insert_triples():
+    """both sides insert outputs at the same position of one cell: a similar-but-different pair, and one side has
+    further outputs before / after it (one-sided decisions next to a similar-insert decision on the same list)"""
+    def st(t): return {'output_type': 'stream', 'name': 'stdout', 'text': t}
+    def nb(outs, minor=5):
+        c = {'cell_type': 'code', 'execution_count': 1, 'metadata': {}, 'outputs': outs, 'source': 'x'}
+        if minor >= 5: c['id'] = 'a1'
+        return {'cells': [c], 'metadata': {}, 'nbformat': 4, 'nbformat_minor': minor}
+    sim_l = 'hello\nworld\nfoo\nbar\n'; sim_r = 'hello\nworld\nfoo\nbaz\n'
+    out = []
+    for minor in (4, 5):
+        for base_outs in ([st('base\n')], []):
+            for extra_before, extra_after in ((0, 1), (1, 0), (1, 1), (0, 2)):
+                xs = [st('zzz\nyyy\n'), st('111\n222\n333\n')]
+                more = [st('before %d\nunrelated\n' % i) for i in range(extra_before)] + [st(sim_r)] + xs[:extra_after]
+                b = nb(list(base_outs), minor); l = nb([st(sim_l)] + list(base_outs), minor); r = nb(more + list(base_outs), minor)
+                out.append({'b': b, 'l': l, 'r': r, 'src': 'crafted:concurrent_output_insert'})
+                out.append({'b': b, 'l': r, 'r': l, 'src': 'crafted:concurrent_output_insert'})
+    return out
+
 def record_touched_triples():
     """re-merges around an nbdime-conflicts record left by an earlier conflicted merge: base with / without a record,
     each side keeps, removes, edits or adds one (notebook and cell metadata), and a NEW metadata conflict arises"""
